@@ -89,9 +89,23 @@ static void case_perfpow(ByteSource& in, CaseInfo& ci) {
   Z u; mpz_from_int(u, U); int g = mpz_perfect_power_p(u); REQUIRE((g != 0) == e, "mpz_perfect_power_p: returned %d, expected %d", g, (int)e);
   REQUIRE(int_from_mpz(u) == U, "mpz_perfect_power_p: operand modified");
 }
+
+// ---- exhaustive sweep: every u in [0, 2^16) (and -u for odd root indices) -----------------------------------------------
+static uint64_t sweep_count() { return 65536; }
+static void sweep_item(uint64_t i, CaseInfo& ci) {
+  ci.d("u=%llu", (unsigned long long)i); Int U = Int::from_u64(i); Z u, r, m; mpz_set_ui(u, i); Int S = ref::isqrt(U);
+  mpz_sqrt(r, u); REQUIRE(int_from_mpz(r) == S, "mpz_sqrt(%llu)", (unsigned long long)i); mpz_sqrtrem(r, m, u); REQUIRE(int_from_mpz(r) == S && int_from_mpz(m) == U - S * S, "mpz_sqrtrem(%llu)", (unsigned long long)i);
+  REQUIRE((mpz_perfect_square_p(u) != 0) == (S * S == U), "mpz_perfect_square_p(%llu)", (unsigned long long)i);
+  if (i) { mp_limb_t l = i, sq, rm; mp_size_t rn = mpn_sqrtrem(&sq, &rm, &l, 1); REQUIRE(Int::from_u64(sq) == S && (rn ? Int::from_u64(rm) : Int(0)) == U - S * S, "mpn_sqrtrem(%llu)", (unsigned long long)i); REQUIRE((mpn_perfect_square_p(&l, 1) != 0) == (S * S == U), "mpn_perfect_square_p(%llu)", (unsigned long long)i); }
+  REQUIRE((mpz_perfect_power_p(u) != 0) == ref_perfect_power(U), "mpz_perfect_power_p(%llu)", (unsigned long long)i); mpz_neg(m, u); REQUIRE((mpz_perfect_power_p(m) != 0) == ref_perfect_power(-U), "mpz_perfect_power_p(-%llu)", (unsigned long long)i);
+  for (unsigned n = 1; n <= 18; n++) { Int R = ref::iroot(U, n), Rem = U - ref::pow(R, n); int ex = mpz_root(r, u, n); REQUIRE(int_from_mpz(r) == R && (ex != 0) == Rem.is_zero(), "mpz_root(%llu,%u)", (unsigned long long)i, n);
+    mpz_rootrem(r, m, u, n); REQUIRE(int_from_mpz(r) == R && int_from_mpz(m) == Rem, "mpz_rootrem(%llu,%u)", (unsigned long long)i, n); mpz_nthroot(r, u, n); REQUIRE(int_from_mpz(r) == R, "mpz_nthroot(%llu,%u)", (unsigned long long)i, n);
+    if (n & 1) { Z nu; mpz_neg(nu, u); ex = mpz_root(r, nu, n); REQUIRE(int_from_mpz(r) == -R && (ex != 0) == Rem.is_zero(), "mpz_root(-%llu,%u)", (unsigned long long)i, n); mpz_rootrem(r, m, nu, n); REQUIRE(int_from_mpz(r) == -R && int_from_mpz(m) == -Rem, "mpz_rootrem(-%llu,%u)", (unsigned long long)i, n); } }
+}
 static void check(ByteSource& in, CaseInfo& ci) { switch (in.pick({5, 5, 3})) { case 0: case_sqrt(in, ci); break; case 1: case_root(in, ci); break; default: case_perfpow(in, ci); break; } }
 namespace eng {
 PropDef g_prop = {"C09",
   "Cases: u = k^n + delta (delta in {0,+-1,+-2,random}; k with long runs of ones, 2^j, 2^j-1, small k; n = 2, 3..7, 8..70, up to beyond the bit length of u) or random u; mpz_sqrt / mpz_sqrtrem (outputs aliasing the operand) / mpn_sqrtrem (r2p separate, == sp, NULL; odd and even limb counts) / mpz_perfect_square_p (also negative) / mpn_perfect_square_p; mpz_root / mpz_nthroot / mpz_rootrem for n>=1 and negative u with odd n; mpz_perfect_power_p on powers, near-misses, p^i*q^j, all |u| <= 70000, negative values. Oracle: refint integer roots (Newton, verified by s^2<=u<(s+1)^2 in the self-test), remainder u - root^n, exactness flag <=> remainder 0, perfect power by root extraction over all prime exponents. Non-trivial: u >= 2 limbs or n beyond the bit length. Distinct = hash of all decoded choices.",
-  check, nullptr, {"exact_power", "power_minus_1", "power_plus_1", "n_gt_bits", "negative_odd_root", "odd_limb_count", "sqrtrem:r2p==sp", "sqrtrem:r2p==NULL", "perfpow:true", "perfpow:negative_true", "ge_rootrem_threshold"}};
+  check, nullptr, {"exact_power", "power_minus_1", "power_plus_1", "n_gt_bits", "negative_odd_root", "odd_limb_count", "sqrtrem:r2p==sp", "sqrtrem:r2p==NULL", "perfpow:true", "perfpow:negative_true", "ge_rootrem_threshold"}, nullptr, sweep_count, sweep_item,
+  "every u in [0,2^16): mpz_sqrt, mpz_sqrtrem, mpn_sqrtrem, mpz/mpn_perfect_square_p, mpz_perfect_power_p of u and -u, mpz_root/rootrem/nthroot for n = 1..18 (and of -u for odd n)"};
 }
